@@ -2,6 +2,7 @@
 import itertools
 from ..facts import Program, AnalysisBroken
 from .. import q
+from . import c20
 
 CLAIM = {
     'text': 'Truth-table duality of SessionID::operator== / operator!= over their shared atoms (exhaustive over the 5 consistent '
@@ -228,7 +229,7 @@ def run(ctx):
         # (d) reset / recover before the answer
         rg = q.branches(fn, lambda a: a.k == 'DeclRefExpr' and a.decl and a.decl.get('sc') == 'local' and any(
             kind == 'init' and val is not None and any(c.callee_qp == 'FIX8::MessageBase::have' and c.args and c.args[0].strip(casts=True).value == 141
-                                                       for c in q.calls_in(val)) for (_, kind, val) in q.local_defs(fn, a.declid)))
+                                                       for c in q.calls_in(c20.decision_expr(prog, fn, val))) for (_, kind, val) in q.local_defs(fn, a.declid)))
         ctx.check(len(rg) == 1, 'R23.2', S + 'handle_logon#reset.test', fn.loc, 'ResetSeqNumFlag(141) decision present')
         gv = cfg.vertex_of(glog[0])
         for br2 in rg:
